@@ -15,7 +15,7 @@ RULE = ("G-int arrangements (as C04) with 1-19 distinct kernel names per type, n
         "conservation incl. 'others', at most num_kernels named rows, each named row's sum/min/max/mean equal to those of the kernels "
         "with that name. Non-trivial: >= 2 analysed types overlapping in time, or more names than num_kernels. Distinct = hash of "
         "files + parameters.")
-ASSUMPTIONS = ["no kernel is literally named 'others'", "total analysed busy time > 0 (percentages)", "type by the documented name rules"]
+ASSUMPTIONS = ["a kernel / annotation literally named 'others' is merged into the aggregate row: only conservation and the cap are judged for it", "total analysed busy time > 0 (percentages)", "type by the documented name rules"]
 PLAN = {"quick": {"shards": 16, "cases": 640, "timeout": 600}, "thorough": {"shards": 16, "cases": 8000, "timeout": 3000}}
 FLOORS = {"quick": {"distinct_nontrivial": 150, "type_tables": 350, "per_type_groups": 1200, "named_rows_judged": 2000, "others_rows": 150,
                     "combo_rows_multi": 150, "annotation_breakdowns": 100, "annotation_rows_judged": 300},
@@ -170,6 +170,8 @@ def run_case(case: Dict[str, Any], ctx: Any) -> core.CaseResult:
                 if named["name"].duplicated().any():
                     res.bad("named-row-unique", f"rank {r} {ty}: duplicate named rows")
                 nb = 0
+                if "others" in durs:
+                    res.counters["groups_with_kernel_named_others"] += 1
                 for nm, s_, mx, mn, mean in zip(named["name"].tolist(), named["sum (us)"].tolist(), named["max (us)"].tolist(),
                                                 named["min (us)"].tolist(), named["mean (us)"].tolist()):
                     res.counters["named_rows_judged"] += 1
